@@ -30,6 +30,7 @@ def asPiece (j : Json) : R Piece := do
 * `c08.roundtrip {pieces: [{sep, style, tok}], trail}` -> the rendered command string, whether the
                            hypotheses of `quote_roundtrip` hold (`wf`), and what it tokenises to
 * `c08.expressible {t}` -> `{"expressible": bool, "escaped": escq t}`
+* `c08.spaces {lo, n}`  -> the code points `lo ≤ k < lo + n` that the model's `isSpace` table calls whitespace
 
 Every string in an answer is an array of code points (`jCodes`).
 -/
@@ -50,6 +51,11 @@ def handle (m : String) (j : Json) : Option (R Json) :=
       return Json.mkObj [("string", jCodes s),
                          ("wf", .bool (wfPieces true ps && trail.all Clikit.Gen.C08.isSpace)),
                          ("raw", jExcept jRaw (stringArgs s))]
+  | "c08.spaces" => some do
+      -- the whitespace table of the model on a whole range of code points
+      let lo ← fNat j "lo"
+      let n ← fNat j "n"
+      return Json.mkObj [("spaces", jList jNat (spacesIn lo n))]
   | "c08.expressible" => some do
       let t ← fChars j "t"
       return Json.mkObj [("expressible", .bool (expressible t)), ("escaped", jCodes (escq t))]
